@@ -17,8 +17,51 @@ pub fn fill(cfg: &Cfg) -> Vec<Cmd> {
     let mut v = vec![];
     for r in 0..cfg.rows {
         v.push(Cup(Some(r as u32 + 1), Some(1)));
-        let s: String = (0..cfg.cols).map(|cc| char::from_u32('A' as u32 + ((r * 7 + cc * 3) % 26) as u32).unwrap()).collect();
+        // (a Latin-1, a double-width and a zero-width character in every row of a screen that is
+        // wide enough to have them away from the picked cursor columns)
+        let s: String = (0..cfg.cols)
+            .map(|cc| match (cfg.cols >= 20, (r * 5 + cc) % 23) {
+                (true, 7) => 'é',
+                (true, 13) => '漢',
+                (true, 19) => '\u{301}',
+                _ => char::from_u32('A' as u32 + ((r * 7 + cc * 3) % 26) as u32).unwrap(),
+            })
+            .collect();
         v.push(Text(s));
+    }
+    v.push(Cup(Some(1), Some(1)));
+    v
+}
+
+/// The other kind of screen: short texts at the left edge (with a double-width, a Latin-1
+/// and a zero-width character among the letters), then blanks - and among the blanks
+/// stretches that were erased under other pens, one of them reaching the right edge on
+/// every third row. What a row "contains" is not where its last letter is.
+pub fn fill_sparse(cfg: &Cfg) -> Vec<Cmd> {
+    let cols = cfg.cols as u32;
+    let mut v = vec![];
+    for r in 0..cfg.rows {
+        v.push(Cup(Some(r as u32 + 1), Some(1)));
+        let len = 1 + (r * 5) % (cfg.cols / 3).max(2);
+        let s: String = (0..len)
+            .map(|k| match (r + k) % 9 {
+                4 => 'é',
+                6 => '漢',
+                8 => '\u{301}',
+                _ => char::from_u32('A' as u32 + ((r * 7 + k * 3) % 26) as u32).unwrap(),
+            })
+            .collect();
+        v.push(Text(s));
+        if cols >= 12 {
+            v.push(sgr1(44));
+            v.push(Cup(Some(r as u32 + 1), Some(cols / 2)));
+            v.push(Ech(Some(cols / 8 + 1)));
+            v.push(sgr1(if r % 2 == 0 { 42 } else { 4 }));
+            let tail = if r % 3 == 0 { 3 } else { 5 };
+            v.push(Cup(Some(r as u32 + 1), Some(cols - tail)));
+            v.push(Ech(Some(3)));
+            v.push(sgr1(0));
+        }
     }
     v.push(Cup(Some(1), Some(1)));
     v
@@ -379,6 +422,16 @@ pub fn mode_list_ops() -> Vec<Op> {
             }
         }
         for l in lists {
+            v.push(c(DecSet(l.clone())));
+            v.push(c(DecRst(l)));
+        }
+    }
+    // a mode at EVERY position of a long list: after 1..=31 other implemented modes (toggled
+    // back and forth so that they cancel) the k-th entry still counts
+    for &m in &[1u32, 6, 7, 25, 1047, 1048, 1049] {
+        for k in [4usize, 7, 8, 9, 10, 15, 16, 17, 31] {
+            let mut l: Vec<u32> = (0..k).map(|i| if i % 2 == 0 { 7 } else { 25 }).collect();
+            l.push(m);
             v.push(c(DecSet(l.clone())));
             v.push(c(DecRst(l)));
         }
